@@ -278,6 +278,7 @@ let () =
   register "DT" dt_handler;
   (* AIT <elem> <hex> [pos] / MIT <k> <v> <hex> [pos]: the context-free typed iterators, collected: the model of `DT seq(elem)` /
      `DT bmap(k,v)` (the built-in impls collect the `_with` twins of the same iterators) *)
+  register "PNU" (fun args -> match args with [h] -> (match String.split_on_char ';' (rt_handler ["pathbuf"; "h" ^ h]) with b :: _ -> b | [] -> "?") | _ -> "?bad-PNU");
   register "RCB" (fun args -> match args with [v] -> (match String.split_on_char ';' (rt_handler ["refcell(seq(u8))"; v]) with b :: _ -> b | [] -> "?") | _ -> "?bad-RCB");
   register "AIT" (fun args -> match args with e :: rest -> dt_handler (("seq(" ^ e ^ ")") :: rest) | _ -> "?bad-AIT");
   register "MIT" (fun args -> match args with k :: v :: rest -> dt_handler (("bmap(" ^ k ^ "," ^ v ^ ")") :: rest) | _ -> "?bad-MIT");
